@@ -207,12 +207,19 @@ def spellings(t, rng, full):
         out.append(('parts-hms', L('ymd', *['I:%d' % x for x in (t.year, t.month, t.day, t.hour, t.minute, t.second)]), t))
     out.append(('yyyymmdd-int', L('num', 'I:%d' % (t.year * 10000 + t.month * 100 + t.day)), day))
     out.append(('ordinal', L('num', 'I:%d' % t.toordinal()), day))
+    # the same integers as numpy scalars (an integer read from an array / a pandas column; `is_int` admits np.int8..np.int64)
+    k = rng.choice(['int64', 'int32'])
+    out.append(('yyyymmdd-npint', L('npnum', s_(k), 'I:%d' % (t.year * 10000 + t.month * 100 + t.day)), day))
+    out.append(('ordinal-npint', L('npnum', s_(k), 'I:%d' % t.toordinal()), day))
     if secs.total_seconds() % 21600 == 0:
         q = int(secs.total_seconds() // 21600)
         out.append(('ordinal-float', L('num', 'F:%d' % (4 * t.toordinal() + q)), t))
         out.append(('yyyymmdd-float', L('num', 'F:%d' % (4 * (t.year * 10000 + t.month * 100 + t.day) + q)), t))
+        out.append(('ordinal-npfloat', L('npnum', s_(rng.choice(['float64', 'float32'])), 'F:%d' % (4 * t.toordinal() + q)), t))   # < 2**22: exact in float32
+        out.append(('yyyymmdd-npfloat', L('npnum', s_('float64'), 'F:%d' % (4 * (t.year * 10000 + t.month * 100 + t.day) + q)), t))
     if 3000 < t.toordinal() - 693594 < 300000:
         out.append(('excel', L('num', 'I:%d' % (t.toordinal() - 693594)), day))
+        out.append(('excel-npint', L('npnum', s_(rng.choice(['int64', 'int32'])), 'I:%d' % (t.toordinal() - 693594)), day))
     out.append(('iso-date', L('str', rng.choice(['uk', 'us']), s_(day.strftime('%Y-%m-%d'))), day))
     out.append(('iso', L('str', rng.choice(['uk', 'us']), s_(t.isoformat())), t))
     out.append(('iso-space', L('str', rng.choice(['uk', 'us']), s_(t.isoformat(' '))), t))
@@ -246,6 +253,14 @@ def spellings(t, rng, full):
     exp = t if wt else day
     out.append(('uk-str-padsep', L('str', 'uk', s_(padsep_str(rng, t, True, wt))), exp))
     out.append(('us-str-padsep', L('str', 'us', s_(padsep_str(rng, t, False, wt))), exp))
+    # the whole variety of time texts the theorems admit (TimeText: lead ' ' or 'T', unpadded fields, h:m, h:m:s, h:m:s.f) on a dialect string
+    # (review t3 §C04.4: the classes above write ' hh:mm:ss[.ffffff]' only)
+    suffix, exp = time_suffix(rng, t)
+    sep, pad = rng.choice(SEPS), rng.random() < 0.5
+    out.append(('uk-str-timetext', L('str', 'uk', s_(dialect_str(t, True, sep, pad, False) + suffix)), exp))
+    out.append(('us-str-timetext', L('str', 'us', s_(dialect_str(t, False, sep, pad, False) + suffix)), exp))
+    suffix, exp = time_suffix(rng, t)
+    out.append(('uk-str-padsep-timetext', L('str', 'uk', s_(padsep_str(rng, t, True, False) + suffix)), exp))
     out.append(('parts-hms-us', L('ymd', *['I:%d' % x for x in (t.year, t.month, t.day, t.hour, t.minute, t.second, t.microsecond)]), t))
     names = name_strs(t, rng)
     for s in (names if full else rng.sample(names[:-2], 1) + names[-2:]):
@@ -263,6 +278,8 @@ def generate(rng, tier):
             yield dict(tag='grid-num2dt', lines=[L('numrel' if i <= 1500 else 'num', 'I:%d' % i)])
     for i in (-3, 0, 7, 1499, 1900, 2000, 2299, 36526, 73050, 146100, 693596, 730120, 839692, 951868800, 4102444800, 19000101, 22991231, 20000230, 20001301):
         yield dict(tag='grid-num2dt', lines=[L('numrel' if i <= 1500 else 'num', 'I:%d' % i)])
+        k = 'int64' if abs(i) >= 2 ** 31 else rng.choice(['int64', 'int32']) if abs(i) >= 2 ** 15 else rng.choice(['int64', 'int32', 'int16'])
+        yield dict(tag='grid-num2dt-npint', lines=[L('npnumrel' if i <= 1500 else 'npnum', s_(k), 'I:%d' % i)])
     # ---- every spelling of stratified + random instants
     days = special_days()
     if quick:
@@ -370,8 +387,13 @@ def as_plain(res):
 def call(op, args, fn):
     from pyg_base import _dates
     ints = lambda xs: [int(a[2:]) for a in xs]
-    if op in ('num', 'numrel'):
-        c = proto.dec_cell(args[0])
+    if op in ('num', 'numrel', 'npnum', 'npnumrel'):
+        c = proto.dec_cell(args[-1])
+        if op.startswith('np'):      # the number as a numpy scalar of the named type (which must hold it exactly)
+            v, c = c, getattr(np, proto.dec_cell(args[0]))(c)
+            if c != v:
+                raise proto.Unencodable('%r does not hold %r' % (type(c), v))
+            op = op[2:]
         if op == 'numrel':
             t0 = _dates.today()
             r = fn(c)
@@ -410,7 +432,7 @@ def run_line(state, sx):
     return call(op, args, pyg_base.dt)
 
 
-OUTSIDE = ('impossible-date', 'range-end', 'grid-num2dt')
+OUTSIDE = ('impossible-date', 'range-end', 'grid-num2dt', 'grid-num2dt-npint')
 UNMODELLED = ('np64-outside',)     # the model answers bad-op (instants outside year 1..9999): nothing to compare
 
 
@@ -470,6 +492,8 @@ def laws(rng, tier, ctx):
             ('law-parts', L('ymd', *['I:%d' % x for x in (t.year, t.month, t.day, t.hour, t.minute, t.second)]), safe(dt, t.year, t.month, t.day, t.hour, t.minute, t.second), t),
             ('law-yyyymmdd', L('num', 'I:%d' % (t.year * 10000 + t.month * 100 + t.day)), safe(dt, t.year * 10000 + t.month * 100 + t.day), day),
             ('law-ordinal', L('num', 'I:%d' % t.toordinal()), safe(dt, t.toordinal()), day),
+            ('law-yyyymmdd-npint', L('npnum', s_('int64'), 'I:%d' % (t.year * 10000 + t.month * 100 + t.day)), safe(dt, np.int64(t.year * 10000 + t.month * 100 + t.day)), day),
+            ('law-ordinal-npint', L('npnum', s_('int32'), 'I:%d' % t.toordinal()), safe(dt, np.int32(t.toordinal())), day),
             ('law-numpy', L('np', s_('us'), enc(tu)), safe(dt, np.datetime64(tu)), tu),
             ('law-pandas', L('pd', enc(tu)), safe(dt, pd.Timestamp(tu)), tu),
             ('law-iso', L('str', 'uk', s_(tu.isoformat())), safe(dt, tu.isoformat()), tu),
